@@ -36,7 +36,8 @@ class Redis:
             return X.integer(e, self.db[k][1])
         if name == b'RESTORE':
             if restore_fault is not None: return restore_fault
-            if k in self.db: return X.error(e, b'BUSYKEY Target key name already exists.')
+            replace = any((X.as_bytes(a) or b'').upper() == b'REPLACE' for a in args[3:])
+            if k in self.db and not replace: return X.error(e, b'BUSYKEY Target key name already exists.')
             ttl = X.as_bytes(args[1])
             self.db[k] = (list(args[2]), -1 if ttl == b'0' else int(ttl)); return X.simple(e, b'OK')
         if name == b'DEL':
@@ -296,6 +297,79 @@ def pull_path(ctx, job):
     ctx.ops += sum(p.value or 0 for p in res if p.kind == 'ok')
 
 
+def overlap_path(ctx, job):
+    """two clients at the importing proxy: a read whose pull is in flight and a write issued at any later point, with the
+    source side's scan of the key at any points in between.  The stale dump of the pull must never replace what the
+    acknowledged write stored."""
+    def setup(e): e.loop_budget = 100000
+    def run(e):
+        w = World(e, job)
+        V = [z3.BitVec('V%d' % i, 8) for i in range(2)]
+        W = [z3.BitVec('W%d' % i, 8) for i in range(1)]
+        w.src.db[K] = (list(V), -1)
+        scan_state = 0; snapshot = None
+        rcv_a, r = w.client(OPS['GET'](None)); assert r.variant == 0
+        rcv_b = None; rep = {'a': None, 'b': None}
+        budget = job['steps']
+        while budget > 0:
+            w.pump()
+            for nm, rc in (('a', rcv_a), ('b', rcv_b)):
+                if rc is not None and rep[nm] is None:
+                    pr = e.poll(Ref(Cell(rc)))
+                    if pr.variant == 0: rep[nm] = un(pr.f[0].v)
+            if rep['a'] is not None and rep['b'] is not None: break
+            if rcv_b is None and job['steps'] - budget >= job['issue_at']:
+                # the second client issues its write after `issue_at` environment steps (one job per position: the
+                # positions are explored in parallel processes)
+                rcv_b, r = w.client(OPS[job['write']](W)); assert r.variant == 0
+                continue
+            acts = []
+            if w.qdst.q: acts.append('dst')
+            if w.qsrc.q: acts.append('src')
+            if w.qsrcp.q and scan_state not in (1, 2): acts.append('srcp')
+            if scan_state == 0 and K in w.src.db: acts.append('scan-dump')
+            elif scan_state == 1: acts.append('scan-restore')
+            elif scan_state == 2: acts.append('scan-del')
+            if not acts:
+                if rcv_b is None: budget = job['steps'] - job['issue_at']; continue      # nothing else can happen before the write
+                break
+            budget -= 1
+            a = acts[e.choose(len(acts), 'env')]
+            if a == 'dst': w.step_backend('dst')
+            elif a == 'src': w.step_backend('src')
+            elif a == 'srcp': w.step_srcproxy()
+            elif a == 'scan-dump': snapshot = w.src.db[K]; scan_state = 1; w.trace.append('scan DUMP')
+            elif a == 'scan-restore': w.scan_restore(snapshot); scan_state = 2
+            elif a == 'scan-del': w.scan_del(); scan_state = 3
+        if rep['a'] is None or rep['b'] is None: return 0          # step budget used up: nothing to compare on this path
+        for _ in range(40):
+            w.pump()
+            if w.qdst.q: w.step_backend('dst')
+            elif w.qsrc.q: w.step_backend('src')
+            elif w.qsrcp.q and scan_state not in (1, 2): w.step_srcproxy()
+            elif scan_state == 1: w.scan_restore(snapshot); scan_state = 2
+            elif scan_state == 2: w.scan_del(); scan_state = 3
+            else: break
+        w.pump()
+        ra, rb = X.reply_resp(e, rep['a']), X.reply_resp(e, rep['b'])
+        def wit(m): return {'write': job['write'], 'trace': list(w.trace), 'V': show(V, m), 'W': show(W, m), 'read_reply': repr(ra)[:120], 'write_reply': repr(rb)[:120],
+                            'src': {k.decode('latin1'): show(v[0], m) for k, v in w.src.db.items()}, 'dst': {k.decode('latin1'): show(v[0], m) for k, v in w.dst.db.items()}}
+        items = [('write-acknowledged', 'C03/write-not-acknowledged', rb == ('ok', ('Simple', list(b'OK'))), wit)]
+        okr = ra[0] == 'ok' and ra[1][0] == 'Bulk' and ra[1][1] is not None and zor([X.bytes_eq(ra[1][1], V), X.bytes_eq(ra[1][1], W)])
+        items.append(('concurrent-read-sees-old-or-new-value', 'C03/read-sees-neither-old-nor-new-value', okr, wit))
+        where = w.dst.db.get(K) or w.src.db.get(K)
+        items.append(('live-key-exists', 'C03/acknowledged-value-lost', where is not None, wit))
+        if where is not None:
+            items.append(('stored-value-is-last-write', 'C03/stored-value-is-not-the-last-acknowledged-write', X.bytes_eq(where[0], W), wit))
+        if scan_state == 3:
+            items.append(('scanned-key-left-the-source', 'C03/key-still-on-source-after-scan', K not in w.src.db, wit))
+        ctx.require_all(e, items)
+        ctx.sample({'scenario': 'overlap GET || %s' % job['write'], 'trace': list(w.trace)})
+        return 2
+    res = ctx.explore('overlapping GET || %s with scan, write issued after %d of %d steps' % (job['write'], job['issue_at'], job['steps']), run, engine_setup=setup, max_paths=400000)
+    ctx.ops += sum(p.value or 0 for p in res if p.kind == 'ok')
+
+
 # ---------------------------------------------------------------- source side: one scan pass (scan_and_migrate_keys)
 class ReadyFuture(PyObj):
     def __init__(self, v): self.v = v
@@ -400,6 +474,7 @@ def first_task(e, req):
 
 
 def worker(ctx, job):
+    if job.get('kind') == 'overlap': return overlap_path(ctx, job)
     if job.get('kind') == 'scan': scan_pass(ctx, job)
     else: pull_path(ctx, job)
 
@@ -418,12 +493,14 @@ def run(ctx):
         jobs.append({'initial': 'src', 'ops': ops, 'steps': 14, 'restore_fault': 8 if quick else 12})
     jobs.append({'kind': 'scan', 'keys': [b'ka', b'kb'], 'holds': 1, 'calls': 4})
     jobs.append({'kind': 'scan', 'keys': [b'ka', b'kb', b'kc'], 'holds': 1 if quick else 2, 'calls': 5 if quick else 6})
+    # the longest jobs first
+    jobs = [{'kind': 'overlap', 'write': 'SET', 'steps': 14 if quick else 18, 'issue_at': k} for k in range(6 if quick else 10)] + jobs
     ctx.bounds = {'scan pass': '2-3 keys, SCAN batches of any size, <= 2 lock slots held by other requests during a pass, <= 6 passes', 'keys': 'one key', 'client operations': '<= 3 of GET / SET / APPEND / DEL issued one after the other (each waits for its reply)', 'initial placement': ['source only', 'destination only', 'nowhere'],
                   'environment': 'answers of source Redis / destination Redis / source proxy (UMSYNC) one queued request at a time in any order; scan of the key (DUMP, RESTORE without REPLACE, DEL) at any points; refused RESTORE with symbolic error text',
                   'value bytes': 'symbolic'}
     ctx.assumptions += ['stand-ins: source Redis, destination Redis (EXISTS / DUMP / PTTL / RESTORE without REPLACE -> BUSYKEY iff the key exists / DEL / GET / SET / APPEND), source proxy (UMSYNC key: moves the key if still present and deletes it locally)',
                         'the source proxy serialises UMSYNC and its scan of the same key by its key lock (scan DUMP..DEL excludes UMSYNC)', 'a Multi request is answered as one pipeline on one connection',
                         'a Redis only answers BUSYKEY to RESTORE when the key exists; any other refusal text is symbolic', 'DUMP payload = the value bytes (serialisation format is opaque to the proxy)']
-    ctx.not_explored += ['concurrent client operations on the same key (operations are sequential here)', 'the source side beyond one scan loop over scan_and_migrate_keys (handle_sync_task, keep_migrating timing, PRECHECK/PRESWITCH/FINALSWITCH handshake of scan_task.rs)',
+    ctx.not_explored += ['concurrent client operations on the same key other than one read whose pull is in flight overlapped by one SET (a DEL or APPEND overlapping a pull is not explored: whether a stale dump restored after an acknowledged DEL can bring the key back is an open question this check does not answer)', 'the source side beyond one scan loop over scan_and_migrate_keys (handle_sync_task, keep_migrating timing, PRECHECK/PRESWITCH/FINALSWITCH handshake of scan_task.rs)',
                          'several keys sharing a lock slot', 'expiry during the transfer (ttl conversion: C19)', 'redirect modes, backend connection counts', 'the commit of the migration and stopping of the task handler (run_task_handler select! cascade)']
     ctx.run_parallel(jobs, worker)
